@@ -118,6 +118,8 @@ struct Case {
     is_string: bool,
     /// in the SUB variant: the earlier constants are defined inside the SUB and shadow global constants of the same names
     shadow: bool,
+    /// where and how the substitution program uses the constant (None: the four fixed uses of the first version; replay files of that version)
+    plan: Option<UsePlan>,
 }
 
 impl Case {
@@ -165,7 +167,11 @@ impl Case {
         self.wrap(&body)
     }
     fn inputs(&self) -> Value {
-        json!({"prelude": self.prelude, "name": self.name, "expr": self.expr, "in_sub": self.in_sub, "is_string": self.is_string, "shadow": self.shadow})
+        let mut v = json!({"prelude": self.prelude, "name": self.name, "expr": self.expr, "in_sub": self.in_sub, "is_string": self.is_string, "shadow": self.shadow});
+        if let Some(p) = &self.plan {
+            v["plan"] = p.to_json();
+        }
+        v
     }
     fn from_inputs(v: &Value) -> Case {
         Case {
@@ -175,6 +181,7 @@ impl Case {
             in_sub: v["in_sub"].as_bool().unwrap_or(false),
             is_string: v["is_string"].as_bool().unwrap_or(false),
             shadow: v["shadow"].as_bool().unwrap_or(false),
+            plan: UsePlan::from_json(&v["plan"]),
         }
     }
 }
@@ -197,7 +204,7 @@ fn op_class(expr: &str) -> &'static str {
     }
 }
 
-fn check(case: &Case) -> Result<(Obs, Obs), Violation> {
+fn check(case: &Case) -> Result<(Obs, Obs, Option<UseReport>), Violation> {
     let p1 = observe(&case.p1());
     let p2 = observe(&case.p2());
     let sig_tail = op_class(&case.expr);
@@ -216,14 +223,18 @@ fn check(case: &Case) -> Result<(Obs, Obs), Violation> {
         return Err(Violation::new(format!("c14-p1p2:{}:{}", kind, sig_tail), why, case.inputs()).exp_obs(json!({"PRINT e": obs_json(&p2), "program": case.p2()}), json!({"CONST c = e : PRINT c": obs_json(&p1), "program": case.p1()})));
     }
     // substitution
+    let mut uses = None;
     let suffixed = !case.is_string && case.name.ends_with(['%', '&', '!', '#']);
     if matches!(p1, Obs::Ran { ok: true, .. }) && !suffixed {
-        let a = observe(&case.p3(false));
-        let b = observe(&case.p3(true));
-        if a != b {
-            return Err(Violation::new(format!("c14-substitution:{}", sig_tail), "replacing every use of the constant by its defining expression in parentheses changes the program's behaviour", case.inputs()).exp_obs(json!({"with (e)": obs_json(&b), "program": case.p3(true)}), json!({"with c": obs_json(&a), "program": case.p3(false)})));
+        if case.plan.is_none() {
+            let a = observe(&case.p3(false));
+            let b = observe(&case.p3(true));
+            if a != b {
+                return Err(Violation::new(format!("c14-substitution:{}", sig_tail), "replacing every use of the constant by its defining expression in parentheses changes the program's behaviour", case.inputs()).exp_obs(json!({"with (e)": obs_json(&b), "program": case.p3(true)}), json!({"with c": obs_json(&a), "program": case.p3(false)})));
+            }
         }
         // type: exactly the suffix of the constant's type is accepted; converting e to that type loses nothing
+        let mut natural = None;
         if !case.is_string && !case.name.ends_with(['%', '&', '!', '#']) {
             let mut accepted = vec![];
             for q in ['%', '&', '!', '#'] {
@@ -236,6 +247,7 @@ fn check(case: &Case) -> Result<(Obs, Obs), Violation> {
                 return Err(Violation::new(format!("c14-type-suffixes:{}", sig_tail), "a bare constant must be referable through exactly one type suffix (its own type)", case.inputs()).exp_obs("exactly one of c%, c&, c!, c# accepted", json!(accepted)));
             }
             let (q, out) = &accepted[0];
+            natural = Some(*q);
             if let Obs::Ran { stdout, .. } = &p1 {
                 if out != stdout {
                     return Err(Violation::new(format!("c14-type-suffix-value:{}", sig_tail), "the constant prints differently through its type suffix", case.inputs()).exp_obs(stdout.clone(), out.clone()));
@@ -249,9 +261,12 @@ fn check(case: &Case) -> Result<(Obs, Obs), Violation> {
                 }
             }
         }
+        // the constant used in several expression positions, at the planned scope, under the planned spelling
+        if let Some(plan) = &case.plan {
+            uses = Some(check_uses(case, plan, &p1, natural)?);
+        }
     }
-    // a suffixed constant holds e converted to the suffix type, or is rejected exactly when that conversion overflows
-    Ok((p1, p2))
+    Ok((p1, p2, uses))
 }
 
 fn one_case(sh: &mut Shard, tape: &[u32]) -> Result<(), Violation> {
@@ -276,10 +291,23 @@ fn one_case(sh: &mut Shard, tape: &[u32]) -> Result<(), Violation> {
     let name = format!("{}{}", g.t.pick(&["CX", "Limit", "k", "Rate.Max"]), suffix);
     let in_sub = g.t.chance(1, 4);
     let shadow = in_sub && !prelude.is_empty() && g.t.chance(1, 2);
-    let case = Case { prelude, name, expr, in_sub, is_string, shadow };
+    let plan = UsePlan { place: g.t.choose(4) as u8, spell: g.t.choose(4) as u8, param: *g.t.pick(&['#', '!']), picks: (0..g.t.choose(4)).map(|_| g.t.raw()).collect() };
+    let case = Case { prelude, name, expr, in_sub, is_string, shadow, plan: Some(plan) };
     sh.eval();
     sh.journal(&case.p1());
-    let (p1, _p2) = check(&case)?;
+    let (p1, _p2, uses) = check(&case)?;
+    if let Some(r) = &uses {
+        for g in &r.groups {
+            sh.class(&format!("use:position:{}", g));
+        }
+        sh.class(&format!("use:scope:{}", r.scope.class()));
+        sh.class(&format!("use:spelling:{}", r.spelled));
+        sh.class(&format!("use:name:{}", name_class(&case.name)));
+        sh.class(if r.expected_ok { "use:substituted-program:runs-to-the-end" } else { "use:substituted-program:fails (same failure required)" });
+        for p in &r.positions {
+            sh.nontrivial(hash64(&("use", p, r.scope.class(), &case.name, &case.expr, r.spelled)));
+        }
+    }
     sh.class(match &p1 {
         Obs::Rejected(c) if c == "lint:Overflow" => "constant:rejected-overflow",
         Obs::Rejected(c) if c == "lint:DivisionByZero" => "constant:rejected-division-by-zero",
@@ -302,16 +330,673 @@ impl Prop for C14 {
         "C14"
     }
     fn rule(&self) -> &'static str {
-        "Constant expressions over literals of all five types (incl. values at and around the INTEGER/LONG boundaries) and 0-2 earlier constants (bare and suffixed), with + - * / MOD, the six relational operators, AND OR NOT, unary minus and string concatenation/comparison, depth <= 5, defined at module level or inside a SUB, under a bare or suffixed name. For each: P1 = `CONST c = e : PRINT c`, P2 = `PRINT e`; P1 must be rejected for Overflow / Division by zero exactly when P2 raises 6 / 11 at run time, otherwise both print the same; a program using c four times behaves like the same program with (e) substituted; a bare constant is referable through exactly one type suffix and a variable of that type receives the same value from e. The implementation is compared with itself. Non-trivial = the expression has >= 1 operator; distinct by (earlier constants, name, expression, scope)."
+        "Constant expressions over literals of all five types (incl. values at and around the INTEGER/LONG boundaries) and 0-2 earlier constants (bare and suffixed), with + - * / MOD, the six relational operators, AND OR NOT, unary minus and string concatenation/comparison, depth <= 5, defined at module level or inside a SUB, under a bare or suffixed name. For each: P1 = `CONST c = e : PRINT c`, P2 = `PRINT e`; P1 must be rejected for Overflow / Division by zero exactly when P2 raises 6 / 11 at run time, otherwise both print the same; a bare constant is referable through exactly one type suffix and a variable of that type receives the same value from e. Substitution: a program that uses c behaves (screen, printer, error) like the same program with every use replaced by (e). The uses are drawn from a table of 81 fragments (expression positions) (plain / parenthesised / unary / binary operand, argument of a user SUB with and without CALL incl. one that assigns to its parameter, of a user FUNCTION, of built-in functions and built-in subs incl. file numbers and names, nested arguments, array subscripts incl. READ targets, DIM / REDIM bounds, FOR from / to / step, SELECT CASE expression and CASE value / IS / range ends / list, PRINT, PRINT USING, LPRINT, PRINT # lists, IF / ELSEIF / WHILE / DO conditions, right side of another CONST at the same and at module level, record field, function result; STRING * n in DIM and TYPE is compared with the literal of the value, INTEGER constants only), at 8 scopes (module; module-level constant used in a SUB / in a FUNCTION / in a SUB while another SUB has a local constant of that name; constant local to a SUB / FUNCTION, alone or shadowing a module-level constant of another value), under 16 spellings (bare, each type suffix, dotted, dotted with suffix, two dots, defined bare and referenced with the suffix and vice versa, other letter case). Enumerated part: every position x scope x spelling with type-exact expressions of value 5 (quick: string and one rotating numeric type per cell; thorough: every type, two value sets); several positions share one program, positions whose substituted side fails are compared on their own. Random part: every generated bare or string constant is used in its 3 original positions plus 0-3 drawn ones (sizes, bounds, counts, file numbers only for printed values 1..20; file names only for letters) at a drawn scope and spelling. The implementation is compared with itself. Non-trivial = the expression has >= 1 operator (distinct by earlier constants, name, expression, scope), plus every distinct (position, scope, spelling, type or expression) cell."
     }
     fn assumptions(&self) -> Vec<&'static str> {
-        vec!["expressions the checker rejects on their own (PRINT e rejected) are outside the property and only counted", "printed numbers are compared modulo an optional 0 before the decimal point"]
+        vec!["expressions the checker rejects on their own (PRINT e rejected) are outside the property and only counted", "printed numbers are compared modulo an optional 0 before the decimal point", "STRING * n admits no expression: there the counterpart of the constant is the literal of its value (INTEGER constants 1..20 only)", "a substituted program that fails (rejected / run-time error / budget) must fail the same way with the constant; positions after the failure are then not observed in that program (counted: use:substituted-program:fails)", "once the enumerated part has reported a violation on a shard, that shard skips the random search"]
     }
     fn run(&self, sh: &mut Shard) {
+        use_grid(sh);
+        if sh.shard == 0 {
+            for (sig, with_c, with_e) in WITNESSES {
+                sh.eval();
+                sh.journal(with_c);
+                sh.class("use-witness");
+                sh.report(check_pair(sig, with_c, with_e, &json!({"sig": sig, "with_c": with_c, "with_e": with_e})));
+            }
+        }
+        if !sh.stats.violations.is_empty() {
+            // the enumerated part already failed on this shard: no search (and no long shrinking) on top of it
+            sh.note("random_search_skipped_after_grid_violations", json!(true));
+            return;
+        }
         let cases = sh.share(sh.tier.pick(10_000, 300_000));
-        sh.search(1, cases, 20, 120, |sh, tape| one_case(sh, tape));
+        sh.search(1, cases, 20, 132, |sh, tape| one_case(sh, tape));
     }
     fn replay(&self, _sh: &mut Shard, inputs: &Value) -> Result<(), Violation> {
+        if let (Some(with_c), Some(with_e)) = (inputs["with_c"].as_str(), inputs["with_e"].as_str()) {
+            return check_pair(inputs["sig"].as_str().unwrap_or("c14-use:replayed-pair"), with_c, with_e, inputs);
+        }
         check(&Case::from_inputs(inputs)).map(|_| ())
     }
+}
+
+// ======================================================================================================
+// Uses of a constant in every expression position, at every scope, under every spelling of its name.
+//
+// Relation (property statement): a program that uses the constant c behaves like the same program with
+// every use replaced by `(e)`. The positions below are the places of the grammar that take an expression;
+// each is a small self-contained fragment (`{c}` = the use, `{k}` = a number that keeps the names of the
+// fragment's own variables apart), so that many of them can be put into one program.
+// ======================================================================================================
+
+/// applies to numeric constants
+const NUM: u16 = 1;
+/// applies to string constants
+const STR: u16 = 2;
+/// the value is used as a size, count, bound, position or file number: only for whole values 1..=20
+const SMALL: u16 = 4;
+/// only inside a FUNCTION (assignment to the function's result)
+const FNONLY: u16 = 8;
+/// the fragment's module-level part uses the constant: only for constants defined at module level
+const GLOBALDEF: u16 = 16;
+/// the (string) value is used as a file name: only for names made of letters
+const FILES: u16 = 32;
+/// the position takes a literal or a constant name only (no expression): the counterpart is the literal of
+/// the constant's value; INTEGER constants only
+const LITERAL: u16 = 64;
+/// the four uses of the first version of the substitution program (always part of a random selection)
+const CORE: u16 = 128;
+
+struct UseCtx {
+    id: &'static str,
+    group: &'static str,
+    flags: u16,
+    /// module-level part (TYPE definitions, DATA, global constants derived from c)
+    top: &'static str,
+    body: &'static str,
+}
+
+const fn u(id: &'static str, group: &'static str, flags: u16, top: &'static str, body: &'static str) -> UseCtx {
+    UseCtx { id, group, flags, top, body }
+}
+
+const USES: &[UseCtx] = &[
+    // ---- the original four ----
+    u("core-assign-product", "expr", NUM | CORE, "", "QX{k}# = {c} * 2\nPRINT QX{k}#\n"),
+    u("core-if-positive", "condition", NUM | CORE, "", "IF {c} > 0 THEN PRINT \"pos\" ELSE PRINT \"nonpos\"\n"),
+    u("core-case-value", "case-item", NUM | CORE, "", "SELECT CASE 1\nCASE {c}\nPRINT \"one\"\nCASE ELSE\nPRINT \"other\"\nEND SELECT\n"),
+    u("core-str-concat", "expr", STR | CORE, "", "QS{k}$ = {c} + \"x\"\nPRINT QS{k}$; LEN({c})\n"),
+    u("core-str-if", "condition", STR | CORE, "", "IF {c} = \"a\" THEN PRINT \"is a\" ELSE PRINT \"not a\"\n"),
+    // ---- plain expressions ----
+    u("print", "expr", NUM | STR, "", "PRINT {c}\n"),
+    u("assign", "expr", NUM, "", "QX{k}# = {c}\nQY{k} = {c}\nPRINT QX{k}#; QY{k}\n"),
+    u("paren-unary", "expr-paren-unary", NUM, "", "PRINT ({c}); -{c}; (-({c}))\n"),
+    u("arith", "expr", NUM, "", "PRINT ({c} * 2) - {c}; 1 + {c}; {c} / 4\n"),
+    u("logical", "expr-paren-unary", NUM, "", "PRINT NOT {c}; {c} AND 3; 1 OR {c}\n"),
+    u("compare", "expr", NUM, "", "PRINT {c} > 0; {c} = {c}; 2 <= {c}\n"),
+    u("str-expr", "expr", STR, "", "PRINT ({c}); ({c} + {c}); {c} + \"x\" + {c}\n"),
+    u("str-compare", "expr", STR, "", "PRINT {c} = \"abc\"; {c} < \"b\"; {c} <> {c}; ({c}) >= \"A\"\n"),
+    // ---- arguments of user SUBs ----
+    u("sub-arg", "arg-user-sub", NUM, "", "Rep1 {c}\n"),
+    u("call-sub-arg", "arg-user-sub", NUM, "", "CALL Rep1({c})\n"),
+    u("sub-args-2", "arg-user-sub", NUM, "", "Rep2 1, {c}\nRep2 {c}, {c}\nCALL Rep2({c}, 2)\n"),
+    u("sub-arg-modified", "arg-user-sub", NUM, "", "Bump {c}\nPRINT {c}\nCALL Bump({c})\nPRINT {c}\n"),
+    u("sub-arg-expr", "arg-user-sub-nested", NUM, "", "Rep1 -{c}\nRep1 {c} * 2\nRep1 ({c})\nRep1 {c} - 1\n"),
+    u("str-sub-arg", "arg-user-sub", STR, "", "ShowS {c}\nCALL ShowS({c})\n"),
+    u("str-sub-arg-modified", "arg-user-sub", STR, "", "BumpS {c}\nPRINT {c}\n"),
+    u("str-sub-arg-expr", "arg-user-sub-nested", STR, "", "ShowS {c} + \"!\"\nShowS ({c})\nShowS2 \"q\", {c}\n"),
+    // ---- arguments of user FUNCTIONs ----
+    u("fn-arg", "arg-user-function", NUM, "", "PRINT Twice#({c})\n"),
+    u("fn-arg-assign", "arg-user-function", NUM, "", "QY{k}# = Twice#({c}) + Add2#(1, {c})\nPRINT QY{k}#; Add2#({c}, {c})\n"),
+    u("fn-arg-nested", "arg-user-function-nested", NUM, "", "PRINT Twice#(Twice#({c})); STR$(Twice#({c})); Twice#({c} * 3); Twice#(-{c})\nRep1 Twice#({c})\n"),
+    u("str-fn-arg", "arg-user-function", STR, "", "PRINT Dup$({c}); LEN(Dup$({c}))\nQS{k}$ = Dup$({c})\nPRINT QS{k}$\n"),
+    u("str-fn-arg-nested", "arg-user-function-nested", STR, "", "PRINT Dup$(Dup$({c})); Dup$({c} + \"-\"); UCASE$(Dup$({c}))\nShowS Dup$({c})\n"),
+    // ---- arguments of built-in functions ----
+    u("builtin-fn-str", "arg-builtin-function", NUM, "", "PRINT STR$({c}); LEN(STR$({c})); VAL(STR$({c})); LTRIM$(STR$({c}))\n"),
+    u("builtin-fn-chr", "arg-builtin-function-nested", NUM | SMALL, "", "PRINT CHR$(60 + {c}); STRING$(2, 60 + {c})\n"),
+    u("builtin-fn-count", "arg-builtin-function", NUM | SMALL, "", "PRINT SPACE$({c}); \"|\"; STRING$({c}, \"x\"); STRING$({c}, 65)\n"),
+    u("builtin-fn-substring", "arg-builtin-function", NUM | SMALL, "", "PRINT LEFT$(\"abcdefgh\", {c}); RIGHT$(\"abcdefgh\", {c}); MID$(\"abcdefgh\", {c}); MID$(\"abcdefgh\", 2, {c}); INSTR({c}, \"abcabcabc\", \"a\")\n"),
+    u("str-builtin-fn", "arg-builtin-function", STR, "", "PRINT LEN({c}); UCASE$({c}); LCASE$({c}); LTRIM$({c}); RTRIM$({c}); VAL({c})\n"),
+    u("str-builtin-fn-substring", "arg-builtin-function", STR, "", "PRINT LEFT$({c}, 2); RIGHT$({c}, 1); MID$({c}, 2); MID$({c}, 2, 1); INSTR({c}, \"b\"); INSTR(\"xxabc\", {c}); INSTR(2, {c}, {c})\n"),
+    u("str-builtin-fn-string", "arg-builtin-function", STR, "", "PRINT STRING$(3, {c})\n"),
+    // ---- arguments of built-in subs ----
+    u("builtin-sub-screen", "arg-builtin-sub", NUM | SMALL, "", "LOCATE {c}, {c}\nPRINT \"at\"\nCOLOR {c}\nVIEW PRINT 1 TO {c}\nVIEW PRINT\nDEF SEG = {c}\nDEF SEG\nPRINT \"screen\"\n"),
+    u("builtin-sub-file-number", "arg-builtin-sub", NUM | SMALL, "", "OPEN \"QF{k}.TMP\" FOR OUTPUT AS {c}\nCLOSE {c}\nOPEN \"QF{k}.TMP\" FOR INPUT AS {c}\nPRINT EOF({c})\nCLOSE {c}\nKILL \"QF{k}.TMP\"\n"),
+    u("builtin-sub-random-file", "arg-builtin-sub", NUM | SMALL, "", "OPEN \"QG{k}.TMP\" FOR RANDOM AS #1 LEN = {c}\nFIELD #1, {c} AS QB{k}$\nLSET QB{k}$ = \"xy\"\nPUT #1, {c}\nLSET QB{k}$ = \"zzzzzzzzzzzzzzzzzzzzzzzz\"\nGET #1, {c}\nPRINT \"[\"; QB{k}$; \"]\"; LEN(QB{k}$)\nCLOSE #1\nKILL \"QG{k}.TMP\"\n"),
+    u("str-builtin-sub-environ", "arg-builtin-sub-nested", STR, "", "ENVIRON \"QK{k}=\" + {c}\nPRINT ENVIRON$(\"QK{k}\")\n"),
+    u("str-builtin-sub-file-name", "arg-builtin-sub", STR | FILES, "", "OPEN {c} FOR OUTPUT AS #1\nPRINT #1, \"in file\"\nCLOSE #1\nOPEN {c} FOR INPUT AS #1\nLINE INPUT #1, QL{k}$\nCLOSE #1\nKILL {c}\nPRINT QL{k}$\n"),
+    u("str-builtin-sub-lset", "arg-builtin-sub", STR, "", "OPEN \"QG{k}.TMP\" FOR RANDOM AS #1 LEN = 8\nFIELD #1, 8 AS QB{k}$\nLSET QB{k}$ = {c}\nPRINT \"[\"; QB{k}$; \"]\"\nCLOSE #1\nKILL \"QG{k}.TMP\"\n"),
+    // ---- array subscripts ----
+    u("subscript", "subscript", NUM | SMALL, "", "DIM QA{k}#(30)\nQA{k}#({c}) = 4\nPRINT QA{k}#({c}); QA{k}#({c} + 1); QA{k}#(({c}))\n"),
+    u("subscript-2d", "subscript", NUM | SMALL, "", "DIM QE{k}(3, 30)\nQE{k}(1, {c}) = 6\nPRINT QE{k}(1, {c}); QE{k}(1, {c} - 1)\n"),
+    u("subscript-in-argument", "subscript-nested", NUM | SMALL, "", "DIM QA{k}#(30)\nQA{k}#({c}) = 4\nRep1 QA{k}#({c})\nPRINT Twice#(QA{k}#({c})); QA{k}#(QA{k}#({c}) + 1); STR$(QA{k}#({c}))\n"),
+    u("subscript-read-target", "subscript", NUM | SMALL, "DATA 7{k}\n", "DIM QD{k}(30)\nREAD QD{k}({c})\nPRINT QD{k}({c})\n"),
+    u("str-array-element", "expr", STR, "", "DIM QT{k}$(3)\nQT{k}$(1) = {c}\nPRINT QT{k}$(1)\nShowS QT{k}$(1) + {c}\n"),
+    // ---- DIM / REDIM bounds ----
+    u("dim-upper", "dim-bound", NUM | SMALL, "", "DIM QB{k}({c}), QC{k}(1 TO {c}), QD{k}(0 TO {c}, {c})\nPRINT UBOUND(QB{k}); UBOUND(QC{k}); UBOUND(QD{k}); UBOUND(QD{k}, 2)\n"),
+    u("dim-lower", "dim-bound", NUM | SMALL, "", "DIM QL{k}({c} TO 30)\nPRINT LBOUND(QL{k})\n"),
+    u("redim", "dim-bound", NUM | SMALL, "", "REDIM QR{k}({c})\nPRINT UBOUND(QR{k})\nREDIM QR{k}({c} TO {c} + 1)\nPRINT LBOUND(QR{k}); UBOUND(QR{k})\n"),
+    // ---- FOR ----
+    u("for-from", "for", NUM | SMALL, "", "FOR QI{k} = {c} TO 22\nQN{k} = QN{k} + 1\nNEXT\nPRINT QN{k}; QI{k}\n"),
+    u("for-to", "for", NUM | SMALL, "", "FOR QI{k} = 1 TO {c}\nQN{k} = QN{k} + 1\nNEXT\nPRINT QN{k}; QI{k}\n"),
+    u("for-step", "for", NUM | SMALL, "", "FOR QI{k} = 1 TO 40 STEP {c}\nPRINT QI{k};\nNEXT\nFOR QI{k} = 40 TO 1 STEP -{c}\nPRINT QI{k};\nNEXT\nPRINT\n"),
+    // ---- SELECT CASE ----
+    u("select-expr", "case-item", NUM, "", "SELECT CASE {c}\nCASE 5\nPRINT \"five\"\nCASE 2\nPRINT \"two\"\nCASE ELSE\nPRINT \"else\"\nEND SELECT\n"),
+    u("case-value", "case-item", NUM, "", "SELECT CASE 5\nCASE {c}\nPRINT \"hit\"\nCASE ELSE\nPRINT \"miss\"\nEND SELECT\n"),
+    u("case-is", "case-item", NUM, "", "SELECT CASE 4\nCASE IS < {c}\nPRINT \"less\"\nCASE IS >= {c}\nPRINT \"ge\"\nEND SELECT\n"),
+    u("case-range-from", "case-item", NUM, "", "SELECT CASE 6\nCASE {c} TO 10\nPRINT \"in\"\nCASE ELSE\nPRINT \"out\"\nEND SELECT\n"),
+    u("case-range-to", "case-item", NUM, "", "SELECT CASE 3\nCASE 0 TO {c}\nPRINT \"in\"\nCASE ELSE\nPRINT \"out\"\nEND SELECT\n"),
+    u("case-list", "case-item", NUM, "", "SELECT CASE 5\nCASE 1, {c}, 9\nPRINT \"listed\"\nCASE ELSE\nPRINT \"unlisted\"\nEND SELECT\n"),
+    u("str-select-expr", "case-item", STR, "", "SELECT CASE {c}\nCASE \"abc\"\nPRINT \"sel\"\nCASE ELSE\nPRINT \"else\"\nEND SELECT\n"),
+    u("str-case-items", "case-item", STR, "", "SELECT CASE \"abd\"\nCASE {c}\nPRINT \"eq\"\nCASE IS < {c}\nPRINT \"lt\"\nCASE {c} TO \"zz\"\nPRINT \"range\"\nCASE ELSE\nPRINT \"else\"\nEND SELECT\nSELECT CASE \"B\"\nCASE \"A\" TO {c}\nPRINT \"range2\"\nCASE \"x\", {c}\nPRINT \"list\"\nCASE ELSE\nPRINT \"else\"\nEND SELECT\n"),
+    // ---- PRINT lists ----
+    u("print-list", "print-list", NUM, "", "PRINT 1; {c}; 2, {c}\nPRINT {c},\nPRINT {c};\nPRINT\n"),
+    u("print-using", "print-list", NUM, "", "PRINT USING \"###.##\"; {c}\nPRINT USING \"## ##\"; 1; {c}\nPRINT USING \"#### \"; {c}; {c}\n"),
+    u("lprint", "print-list", NUM, "", "LPRINT {c}; \"lp\"; {c}\nLPRINT USING \"##.#\"; {c}\n"),
+    u("print-file", "print-list", NUM, "", "OPEN \"QP{k}.TMP\" FOR OUTPUT AS #1\nPRINT #1, {c}; {c}\nPRINT #1, USING \"##.#\"; {c}\nCLOSE #1\nOPEN \"QP{k}.TMP\" FOR INPUT AS #1\nLINE INPUT #1, QL{k}$\nPRINT QL{k}$\nLINE INPUT #1, QL{k}$\nPRINT QL{k}$\nCLOSE #1\nKILL \"QP{k}.TMP\"\n"),
+    u("str-print-list", "print-list", STR, "", "PRINT {c}; \"|\"; {c}, {c}\nPRINT {c},\nPRINT {c};\nPRINT\nLPRINT {c}; \"|\"\n"),
+    u("str-print-using-value", "print-list", STR, "", "PRINT USING \"\\  \\|\"; {c}\nPRINT USING \"!|\"; {c}; {c}\n"),
+    u("str-print-using-format", "print-list", STR, "", "PRINT USING {c}; 1\n"),
+    u("str-print-using-format-expr", "print-list", STR, "", "PRINT USING {c} + \" ##\"; 7\n"),
+    // ---- conditions ----
+    u("if-single-line", "condition", NUM, "", "IF {c} THEN PRINT \"t\" ELSE PRINT \"f\"\n"),
+    u("if-block-elseif", "condition", NUM, "", "IF {c} > 3 THEN\nPRINT \"gt\"\nELSEIF {c} THEN\nPRINT \"ei\"\nELSE\nPRINT \"el\"\nEND IF\nIF 0 THEN\nELSEIF {c} = 5 THEN\nPRINT \"elseif\"\nEND IF\n"),
+    u("while", "condition", NUM | SMALL, "", "QW{k} = 0\nWHILE QW{k} < {c}\nQW{k} = QW{k} + 1\nWEND\nPRINT QW{k}\n"),
+    u("do-loops", "condition", NUM | SMALL, "", "QW{k} = 0\nDO WHILE QW{k} < {c}\nQW{k} = QW{k} + 1\nLOOP\nDO\nQW{k} = QW{k} + 1\nLOOP UNTIL QW{k} >= {c} * 2\nPRINT QW{k}\nDO UNTIL QW{k} > {c} * 2\nQW{k} = QW{k} + 1\nLOOP\nDO\nQW{k} = QW{k} - 1\nLOOP WHILE QW{k} > {c}\nPRINT QW{k}\n"),
+    u("str-conditions", "condition", STR, "", "IF {c} = \"abc\" THEN PRINT \"is\" ELSE PRINT \"isnt\"\nIF {c} > \"B\" THEN\nPRINT \"gt\"\nELSEIF {c} <> \"\" THEN\nPRINT \"ne\"\nEND IF\nQW{k} = 0\nWHILE {c} <> \"\" AND QW{k} < 2\nQW{k} = QW{k} + 1\nWEND\nPRINT QW{k}\n"),
+    // ---- right side of another CONST ----
+    u("const-rhs", "const-rhs", NUM, "", "CONST QD{k} = {c}\nCONST QH{k} = ({c})\nPRINT QD{k}; QH{k}\n"),
+    u("const-rhs-expr", "const-rhs", NUM | SMALL, "", "CONST QE{k} = {c} + 1\nCONST QF{k}# = {c} * 2\nCONST QJ{k} = -{c}\nPRINT QE{k}; QF{k}#; QJ{k}\nRep1 QE{k}\n"),
+    u("const-rhs-global-chain", "const-rhs", NUM | GLOBALDEF, "CONST QG{k} = ({c})\nCONST QM{k} = QG{k}\n", "PRINT QG{k}; QM{k}\nRep1 QM{k}\n"),
+    u("str-const-rhs", "const-rhs", STR, "", "CONST QD{k}$ = {c} + \"!\"\nCONST QE{k} = {c}\nPRINT QD{k}$; QE{k}\n"),
+    u("str-const-rhs-global-chain", "const-rhs", STR | GLOBALDEF, "CONST QG{k}$ = {c}\n", "PRINT QG{k}$\nShowS QG{k}$\n"),
+    // ---- record fields, function result ----
+    u("record-field", "expr", NUM, "TYPE QT{k}\nfld AS INTEGER\ndbl AS DOUBLE\nEND TYPE\n", "DIM QR{k} AS QT{k}\nQR{k}.dbl = {c}\nPRINT QR{k}.dbl\nRep1 QR{k}.dbl + {c}\n"),
+    u("function-result", "expr", NUM | FNONLY, "", "ProbeF# = {c}\n"),
+    u("str-function-result", "arg-builtin-function", STR | FNONLY, "", "ProbeF# = LEN({c})\n"),
+    // ---- STRING * n (a literal or a constant name; no expression) ----
+    u("string-length-dim", "string-length", NUM | SMALL | LITERAL, "", "DIM QS{k} AS STRING * {c}\nPRINT LEN(QS{k})\n"),
+    u("string-length-type", "string-length", NUM | SMALL | LITERAL | GLOBALDEF, "TYPE QU{k}\nnm AS STRING * {c}\nEND TYPE\n", "DIM QV{k} AS QU{k}\nPRINT LEN(QV{k}.nm)\n"),
+];
+
+#[derive(Clone, Copy, PartialEq, Debug)]
+enum Scope {
+    /// defined and used at module level
+    Module,
+    /// defined at module level, used inside a SUB / a FUNCTION
+    SubGlobal,
+    FnGlobal,
+    /// defined and used inside a SUB / a FUNCTION
+    SubLocal,
+    FnLocal,
+    /// the same, while a module-level constant of the same name holds another value
+    SubShadow,
+    FnShadow,
+    /// defined at module level, used inside a SUB, while ANOTHER SUB has a local constant of the same name
+    SubGlobalOther,
+}
+
+const SCOPES: [Scope; 8] = [Scope::Module, Scope::SubGlobal, Scope::FnGlobal, Scope::SubLocal, Scope::FnLocal, Scope::SubShadow, Scope::FnShadow, Scope::SubGlobalOther];
+
+impl Scope {
+    fn class(self) -> &'static str {
+        match self {
+            Scope::Module => "module",
+            Scope::SubGlobal => "global-constant-in-sub",
+            Scope::FnGlobal => "global-constant-in-function",
+            Scope::SubLocal => "local-constant-in-sub",
+            Scope::FnLocal => "local-constant-in-function",
+            Scope::SubShadow => "local-constant-in-sub-shadowing-global",
+            Scope::FnShadow => "local-constant-in-function-shadowing-global",
+            Scope::SubGlobalOther => "global-constant-in-sub-other-sub-has-local",
+        }
+    }
+    fn in_function(self) -> bool {
+        matches!(self, Scope::FnGlobal | Scope::FnLocal | Scope::FnShadow)
+    }
+    fn at_module(self) -> bool {
+        self == Scope::Module
+    }
+    fn global_def(self) -> bool {
+        matches!(self, Scope::Module | Scope::SubGlobal | Scope::FnGlobal | Scope::SubGlobalOther)
+    }
+}
+
+/// The helper procedures the text refers to (parsing is the dominant cost: unused ones are left out).
+fn helpers(param: char, text: &str) -> String {
+    let p = param;
+    let all: [(&str, String); 9] = [
+        ("Rep1 ", format!("SUB Rep1 (n{p})\n  PRINT \"rep1\"; n{p}\nEND SUB\n")),
+        ("Rep2 ", format!("SUB Rep2 (a{p}, b{p})\n  PRINT \"rep2\"; a{p}; b{p}\nEND SUB\n")),
+        ("Bump ", format!("SUB Bump (n{p})\n  n{p} = n{p} + 1\n  PRINT \"bump\"; n{p}\nEND SUB\n")),
+        ("Twice#(", format!("FUNCTION Twice# (n{p})\n  Twice# = n{p} * 2\nEND FUNCTION\n")),
+        ("Add2#(", format!("FUNCTION Add2# (a{p}, b{p})\n  Add2# = a{p} + b{p}\nEND FUNCTION\n")),
+        ("ShowS ", "SUB ShowS (s$)\n  PRINT \"<\"; s$; \">\"\nEND SUB\n".to_string()),
+        ("ShowS2 ", "SUB ShowS2 (a$, b$)\n  PRINT \"<\"; a$; \"|\"; b$; \">\"\nEND SUB\n".to_string()),
+        ("BumpS ", "SUB BumpS (s$)\n  s$ = s$ + \"+\"\n  PRINT s$\nEND SUB\n".to_string()),
+        ("Dup$(", "FUNCTION Dup$ (s$)\n  Dup$ = s$ + s$\nEND FUNCTION\n".to_string()),
+    ];
+    // `CALL Rep1(` etc. count as well
+    all.iter().filter(|(needle, _)| text.contains(needle) || text.contains(&format!("CALL {}(", needle.trim_end()))).map(|(_, t)| t.as_str()).collect()
+}
+
+/// One side of a substitution pair.
+struct UseProg<'a> {
+    scope: Scope,
+    /// CONST definitions at module level / inside the subprogram (earlier constants, the constant under test, decoys)
+    globals: &'a str,
+    locals: &'a str,
+    /// body of the other SUB of `Scope::SubGlobalOther`
+    other: &'a str,
+    /// the text put at every use, and at the uses that admit no expression
+    use_text: &'a str,
+    lit_text: &'a str,
+    /// (index into USES, number for the fragment's own names)
+    items: &'a [(usize, usize)],
+    /// type of the helper procedures' numeric parameters
+    param: char,
+}
+
+impl UseProg<'_> {
+    fn render(&self) -> String {
+        let mut tops = String::new();
+        let mut body = String::new();
+        for (ci, k) in self.items {
+            let ctx = &USES[*ci];
+            let text = if ctx.flags & LITERAL != 0 { self.lit_text } else { self.use_text };
+            let ks = k.to_string();
+            tops.push_str(&ctx.top.replace("{c}", text).replace("{k}", &ks));
+            body.push_str(&ctx.body.replace("{c}", text).replace("{k}", &ks));
+        }
+        let inner = indent(&format!("{}{}", self.locals, body));
+        let mut out = format!("{}{}", self.globals, tops);
+        if self.scope.at_module() {
+            out.push_str(self.locals);
+            out.push_str(&body);
+        } else if self.scope.in_function() {
+            out.push_str(&format!("QZ# = ProbeF#\nPRINT QZ#\nFUNCTION ProbeF#\n  ProbeF# = 1\n{}END FUNCTION\n", inner));
+        } else if self.scope == Scope::SubGlobalOther {
+            out.push_str(&format!("Other\nProbe\nOther\nSUB Other\n{}END SUB\nSUB Probe\n{}END SUB\n", indent(self.other), inner));
+        } else {
+            out.push_str(&format!("Probe\nSUB Probe\n{}END SUB\n", inner));
+        }
+        let h = helpers(self.param, &out);
+        out.push_str(&h);
+        out
+    }
+}
+
+/// Observation of a program with everything it writes (screen and printer).
+fn observe_all(src: &str) -> Obs {
+    match impl_run::run_src(src, &RunOpts::budget(200_000)) {
+        Err(FrontErr::Panic { stage, info }) => Obs::Other(format!("panic:{}:{}", stage, info.sig())),
+        Err(e) => Obs::Rejected(e.class()),
+        Ok(o) => {
+            let mut text = norm_numbers(&o.stdout_str());
+            if !o.lpt1.is_empty() {
+                text.push_str("\u{1}LPT1:");
+                text.push_str(&norm_numbers(&String::from_utf8_lossy(&o.lpt1)));
+            }
+            match &o.end {
+                End::Ok => Obs::Ran { stdout: text, code: None, ok: true },
+                End::Err { code, .. } => Obs::Ran { stdout: text, code: *code, ok: false },
+                End::Panic(p) => Obs::Other(format!("panic:run:{}", p.sig())),
+                End::Budget => Obs::Other("budget".into()),
+            }
+        }
+    }
+}
+
+fn ran_ok(o: &Obs) -> bool {
+    matches!(o, Obs::Ran { ok: true, .. })
+}
+
+fn name_class(name: &str) -> String {
+    let dotted = name.contains('.');
+    let suffixed = name.ends_with(['%', '&', '!', '#', '$']);
+    format!("{}{}", if dotted { "dotted" } else { "plain" }, if suffixed { "-suffixed" } else { "" })
+}
+
+fn decoy_for(name: &str, is_string: bool) -> String {
+    if is_string { format!("CONST {} = \"zz\"\n", name) } else { format!("CONST {} = 77\n", name) }
+}
+
+/// Everything needed to build both sides of a substitution pair for any selection of positions.
+struct UsePair {
+    scope: Scope,
+    /// the with-c side: definitions incl. the constant under test; the with-(e) side: the same without it
+    globals_c: String,
+    locals_c: String,
+    globals_e: String,
+    locals_e: String,
+    other: String,
+    /// reference to the constant as spelled at the uses
+    reference: String,
+    /// `(e)`
+    substitute: String,
+    /// literal of the value, for INTEGER constants whose value is known ("" otherwise)
+    literal: String,
+    param: char,
+    /// name as defined (reporting only)
+    def_name: String,
+}
+
+impl UsePair {
+    fn with_c(&self, items: &[(usize, usize)]) -> String {
+        UseProg { scope: self.scope, globals: &self.globals_c, locals: &self.locals_c, other: &self.other, use_text: &self.reference, lit_text: &self.reference, items, param: self.param }.render()
+    }
+    fn with_e(&self, items: &[(usize, usize)]) -> String {
+        UseProg { scope: self.scope, globals: &self.globals_e, locals: &self.locals_e, other: &self.other, use_text: &self.substitute, lit_text: &self.literal, items, param: self.param }.render()
+    }
+    fn violation(&self, ctx: Option<&UseCtx>, items: &[(usize, usize)], a: &Obs, b: &Obs, extra: &Value) -> Violation {
+        let (group, id) = match ctx {
+            Some(c) => (c.group, c.id),
+            None => ("several-uses-together", "batch"),
+        };
+        let mut inputs = json!({"with_c": self.with_c(items), "with_e": self.with_e(items), "position": id, "scope": self.scope.class(), "defined_as": self.def_name, "referenced_as": self.reference, "substitute": self.substitute});
+        if let (Value::Object(m), Value::Object(x)) = (&mut inputs, extra) {
+            for (k, v) in x {
+                m.insert(k.clone(), v.clone());
+            }
+        }
+        let what = if ctx.map(|c| c.flags & LITERAL != 0).unwrap_or(false) {
+            "a position that takes a literal or a constant: using the constant behaves differently from using the literal of its value"
+        } else {
+            "replacing every use of the constant by its defining expression in parentheses changes the program's behaviour"
+        };
+        let sig = if ctx.map(|c| c.flags & LITERAL != 0).unwrap_or(false) {
+            format!("c14-use-literal:{}:{}", group, if self.reference.contains('.') { "dotted" } else { "plain" })
+        } else {
+            format!("c14-use:{}:{}:{}", group, self.scope.class(), name_class(&self.reference))
+        };
+        inputs["sig"] = json!(sig);
+        Violation::new(sig, what, inputs).exp_obs(json!({"with (e)": obs_json(b)}), json!({"with c": obs_json(a)}))
+    }
+    /// The batch differs: find the first single position that differs on its own (None: only together).
+    fn narrow(&self, items: &[(usize, usize)], a: &Obs, b: &Obs, extra: &Value) -> Violation {
+        if items.len() > 1 {
+            for it in items {
+                let one = [*it];
+                let a1 = observe_all(&self.with_c(&one));
+                let b1 = observe_all(&self.with_e(&one));
+                if a1 != b1 {
+                    return self.violation(Some(&USES[it.0]), &one, &a1, &b1, extra);
+                }
+            }
+            return self.violation(None, items, a, b, extra);
+        }
+        self.violation(items.first().map(|it| &USES[it.0]), items, a, b, extra)
+    }
+}
+
+/// Is the position usable for this constant at this scope?
+fn applicable(ctx: &UseCtx, is_string: bool, scope: Scope, small: bool, file_name: bool, literal: bool) -> bool {
+    let f = ctx.flags;
+    (if is_string { f & STR != 0 } else { f & NUM != 0 })
+        && (f & SMALL == 0 || small)
+        && (f & FNONLY == 0 || scope.in_function())
+        && (f & GLOBALDEF == 0 || scope.global_def())
+        && (f & FILES == 0 || file_name)
+        && (f & LITERAL == 0 || literal)
+}
+
+// ------------------------------------------------------------------------------------------------------
+// the random part: where and how the substitution program of a generated constant uses it
+// ------------------------------------------------------------------------------------------------------
+
+#[derive(Clone, Debug)]
+struct UsePlan {
+    /// 0 module level, 1 SUB, 2 FUNCTION, 3 SUB while another SUB has a local constant of the same name
+    /// (a constant defined inside a subprogram is used there: 2 = FUNCTION, anything else = SUB)
+    place: u8,
+    /// 0 as defined, 1 upper case, 2 lower case, 3 bare constant through its type suffix / string constant without `$`
+    spell: u8,
+    /// type of the helper procedures' parameters
+    param: char,
+    /// raw choices of positions (reduced modulo the number of applicable ones)
+    picks: Vec<u32>,
+}
+
+impl UsePlan {
+    fn to_json(&self) -> Value {
+        json!({"place": self.place, "spell": self.spell, "param": self.param.to_string(), "picks": self.picks})
+    }
+    fn from_json(v: &Value) -> Option<UsePlan> {
+        if !v.is_object() {
+            return None;
+        }
+        Some(UsePlan {
+            place: v["place"].as_u64().unwrap_or(0) as u8,
+            spell: v["spell"].as_u64().unwrap_or(0) as u8,
+            param: v["param"].as_str().and_then(|s| s.chars().next()).filter(|c| ['#', '!'].contains(c)).unwrap_or('#'),
+            picks: v["picks"].as_array().map(|a| a.iter().map(|x| x.as_u64().unwrap_or(0) as u32).collect()).unwrap_or_default(),
+        })
+    }
+}
+
+struct UseReport {
+    scope: Scope,
+    positions: Vec<&'static str>,
+    groups: Vec<&'static str>,
+    expected_ok: bool,
+    spelled: &'static str,
+}
+
+/// The substitution program of a generated constant: the constant's own `PRINT c` output tells which positions are safe.
+fn check_uses(case: &Case, plan: &UsePlan, p1: &Obs, natural: Option<char>) -> Result<UseReport, Violation> {
+    let printed = match p1 {
+        Obs::Ran { stdout, .. } => stdout.trim_end_matches(['\r', '\n']).to_string(),
+        _ => String::new(),
+    };
+    let value: Option<f64> = if case.is_string { None } else { printed.trim().parse::<f64>().ok() };
+    let small = value.map(|v| v.fract() == 0.0 && (1.0..=20.0).contains(&v)).unwrap_or(false);
+    let file_name = case.is_string && !printed.is_empty() && printed.len() <= 8 && printed.chars().all(|c| c.is_ascii_alphabetic());
+    let literal = small && natural == Some('%');
+    let scope = if case.in_sub {
+        match (plan.place == 2, case.shadow) {
+            (false, false) => Scope::SubLocal,
+            (true, false) => Scope::FnLocal,
+            (false, true) => Scope::SubShadow,
+            (true, true) => Scope::FnShadow,
+        }
+    } else {
+        [Scope::Module, Scope::SubGlobal, Scope::FnGlobal, Scope::SubGlobalOther][(plan.place % 4) as usize]
+    };
+    let (reference, spelled) = match plan.spell {
+        1 => (case.name.to_uppercase(), "upper-case"),
+        2 => (case.name.to_lowercase(), "lower-case"),
+        3 if case.is_string => (case.name.trim_end_matches('$').to_string(), "string-constant-without-suffix"),
+        3 if natural.is_some() && !case.name.ends_with(['%', '&', '!', '#']) => (format!("{}{}", case.name, natural.unwrap()), "bare-constant-through-its-type-suffix"),
+        _ => (case.name.clone(), "as-defined"),
+    };
+    let def = format!("CONST {} = {}\n", case.name, case.expr);
+    let decoys = format!("{}{}", case.prelude_global(), decoy_for(&case.name, case.is_string));
+    let (globals_c, locals_c, globals_e, locals_e) = if !case.in_sub {
+        (format!("{}{}", case.prelude, def), String::new(), case.prelude.clone(), String::new())
+    } else if case.shadow {
+        (decoys.clone(), format!("{}{}", case.prelude, def), decoys.clone(), case.prelude.clone())
+    } else {
+        (case.prelude.clone(), def.clone(), case.prelude.clone(), String::new())
+    };
+    let other = format!("{}PRINT {}\n", decoy_for(&case.name, case.is_string), case.name);
+    let pair = UsePair { scope, globals_c, locals_c, globals_e, locals_e, other, reference, substitute: format!("({})", case.expr), literal: if literal { format!("{}", value.unwrap_or(1.0) as i64) } else { String::new() }, param: plan.param, def_name: case.name.clone() };
+    // the original uses first, then the chosen positions in the order chosen
+    let mut chosen: Vec<usize> = (0..USES.len()).filter(|i| USES[*i].flags & CORE != 0 && applicable(&USES[*i], case.is_string, scope, small, file_name, literal)).collect();
+    let pool: Vec<usize> = (0..USES.len()).filter(|i| USES[*i].flags & CORE == 0 && applicable(&USES[*i], case.is_string, scope, small, file_name, literal)).collect();
+    for p in &plan.picks {
+        if pool.is_empty() {
+            break;
+        }
+        let i = pool[*p as usize % pool.len()];
+        if !chosen.contains(&i) {
+            chosen.push(i);
+        }
+    }
+    let items: Vec<(usize, usize)> = chosen.iter().enumerate().map(|(k, i)| (*i, k + 1)).collect();
+    let b = observe_all(&pair.with_e(&items));
+    let a = observe_all(&pair.with_c(&items));
+    if a != b {
+        return Err(pair.narrow(&items, &a, &b, &case.inputs()));
+    }
+    Ok(UseReport { scope, positions: items.iter().map(|it| USES[it.0].id).collect(), groups: items.iter().map(|it| USES[it.0].group).collect(), expected_ok: ran_ok(&b), spelled })
+}
+
+// ------------------------------------------------------------------------------------------------------
+// the enumerated part: every position x every scope x every spelling x every type, with values for which
+// every position is meaningful
+// ------------------------------------------------------------------------------------------------------
+
+struct Style {
+    id: &'static str,
+    def: &'static str,
+    def_suffixed: bool,
+    reference: &'static str,
+    ref_suffixed: bool,
+}
+
+const fn st(id: &'static str, def: &'static str, def_suffixed: bool, reference: &'static str, ref_suffixed: bool) -> Style {
+    Style { id, def, def_suffixed, reference, ref_suffixed }
+}
+
+const STYLES: [Style; 16] = [
+    st("bare", "Limit", false, "Limit", false),
+    st("bare-upper-case", "Limit", false, "LIMIT", false),
+    st("bare-lower-case", "Limit", false, "limit", false),
+    st("bare-referenced-with-suffix", "Limit", false, "Limit", true),
+    st("suffixed", "Limit", true, "Limit", true),
+    st("suffixed-referenced-bare", "Limit", true, "Limit", false),
+    st("suffixed-upper-case", "Limit", true, "LIMIT", true),
+    st("dotted", "Max.Items", false, "Max.Items", false),
+    st("dotted-upper-case", "Max.Items", false, "MAX.ITEMS", false),
+    st("dotted-lower-case", "Max.Items", false, "max.items", false),
+    st("dotted-referenced-with-suffix", "Max.Items", false, "Max.Items", true),
+    st("dotted-suffixed", "Max.Items", true, "Max.Items", true),
+    st("dotted-suffixed-referenced-bare", "Max.Items", true, "Max.Items", false),
+    st("dotted-suffixed-lower-case", "Max.Items", true, "max.items", true),
+    st("two-dots-mixed-case", "A.B.C", false, "a.b.C", false),
+    st("one-letter-other-case", "k", false, "K", false),
+];
+
+const GRID_TYPES: [char; 5] = ['%', '&', '!', '#', '$'];
+/// (defining expression whose own type is the column's type, literal of its value) per value set and type
+const GRID_VALUES: [[(&str, &str); 5]; 2] = [
+    [("(2 + 3)", "5"), ("(70000 - 69995)", ""), ("(2.5 * 2)", ""), ("(2.5# * 2)", ""), ("(\"ab\" + \"c\")", "")],
+    [("(9 - 7)", "2"), ("(65538 - 65536)", ""), ("(1.25 * 2)", ""), ("(1.25# * 2)", ""), ("(\"Q z #\" + \"#.#\")", "")],
+];
+
+fn grid_pair(scope: Scope, style: &Style, q: char, expr: &str, literal: &str) -> UsePair {
+    let is_string = q == '$';
+    let def_name = format!("{}{}", style.def, if style.def_suffixed { q.to_string() } else { String::new() });
+    let reference = format!("{}{}", style.reference, if style.ref_suffixed { q.to_string() } else { String::new() });
+    let def = format!("CONST {} = {}\n", def_name, expr);
+    let decoy = decoy_for(&def_name, is_string);
+    let (globals_c, locals_c, globals_e, locals_e) = match scope {
+        Scope::Module | Scope::SubGlobal | Scope::FnGlobal | Scope::SubGlobalOther => (def.clone(), String::new(), String::new(), String::new()),
+        Scope::SubLocal | Scope::FnLocal => (String::new(), def.clone(), String::new(), String::new()),
+        Scope::SubShadow | Scope::FnShadow => (decoy.clone(), def.clone(), decoy.clone(), String::new()),
+    };
+    let other = format!("{}PRINT {}\n", decoy, def_name);
+    UsePair { scope, globals_c, locals_c, globals_e, locals_e, other, reference, substitute: expr.to_string(), literal: literal.to_string(), param: '#', def_name }
+}
+
+/// One unit of the grid: a value set, a type and a scope; all spellings, all positions.
+/// Quick tier: at every scope every spelling meets the string type and one numeric type (rotating, so that every
+/// spelling meets every numeric type at two scopes); the thorough tier crosses everything.
+fn grid_unit(sh: &mut Shard, vs: usize, ti: usize, scope: Scope, full: bool) -> bool {
+    let q = GRID_TYPES[ti];
+    let is_string = q == '$';
+    let (expr, literal) = GRID_VALUES[vs][ti];
+    let ctxs: Vec<usize> = (0..USES.len()).filter(|i| applicable(&USES[*i], is_string, scope, !is_string, is_string, !literal.is_empty())).collect();
+    let items: Vec<(usize, usize)> = ctxs.iter().enumerate().map(|(k, i)| (*i, k + 1)).collect();
+    // the expected side does not depend on the spelling of the name
+    let base = grid_pair(scope, &STYLES[0], q, expr, literal);
+    sh.journal(&base.with_e(&items));
+    let b_all = observe_all(&base.with_e(&items));
+    let mut together: Vec<(usize, usize)> = vec![];
+    let mut alone: Vec<((usize, usize), Obs)> = vec![];
+    let b_together;
+    if ran_ok(&b_all) {
+        together = items.clone();
+        b_together = b_all;
+    } else {
+        // some position fails with this value: such positions are compared on their own
+        for it in &items {
+            let b1 = observe_all(&base.with_e(&[*it]));
+            if ran_ok(&b1) { together.push(*it) } else { alone.push((*it, b1)) }
+        }
+        let b2 = observe_all(&base.with_e(&together));
+        if ran_ok(&b2) {
+            b_together = b2;
+        } else {
+            // fragments disturb each other: everything on its own
+            alone = items.iter().map(|it| (*it, observe_all(&base.with_e(&[*it])))).collect();
+            together.clear();
+            b_together = b2;
+            sh.class("use-grid:unit-without-batch");
+        }
+    }
+    let si = SCOPES.iter().position(|s| *s == scope).unwrap_or(0);
+    for (sti, style) in STYLES.iter().enumerate() {
+        if !full && !is_string && (sti + si) % 4 != ti {
+            continue;
+        }
+        let pair = grid_pair(scope, style, q, expr, literal);
+        let extra = json!({"type": q.to_string(), "style": style.id});
+        sh.eval();
+        let mut verdict: Result<(), Violation> = Ok(());
+        if !together.is_empty() {
+            let src = pair.with_c(&together);
+            sh.journal(&src);
+            let a = observe_all(&src);
+            if a != b_together {
+                verdict = Err(pair.narrow(&together, &a, &b_together, &extra));
+            }
+        }
+        if verdict.is_ok() {
+            for (it, b1) in &alone {
+                let src = pair.with_c(&[*it]);
+                sh.journal(&src);
+                let a1 = observe_all(&src);
+                if &a1 != b1 {
+                    verdict = Err(pair.violation(Some(&USES[it.0]), &[*it], &a1, b1, &extra));
+                    break;
+                }
+            }
+        }
+        for it in &together {
+            sh.class(&format!("use-grid:position:{}", USES[it.0].group));
+            sh.nontrivial(hash64(&("grid", USES[it.0].id, scope.class(), style.id, q, vs)));
+        }
+        for (it, _) in &alone {
+            sh.class(&format!("use-grid:position:{}", USES[it.0].group));
+            sh.class(&format!("use-grid:expected-side-fails:{}", USES[it.0].id));
+            sh.nontrivial(hash64(&("grid", USES[it.0].id, scope.class(), style.id, q, vs)));
+        }
+        sh.class(&format!("use-grid:scope:{}", scope.class()));
+        sh.class(&format!("use-grid:name:{}", style.id));
+        sh.class(&format!("use-grid:type:{}", q));
+        if scope == Scope::SubGlobal && style.id == "dotted" && vs == 0 && (q == '%' || q == '$') {
+            sh.sample(|| json!({"use_grid_with_c": pair.with_c(&together), "use_grid_with_e": pair.with_e(&together)}));
+        }
+        if !sh.report(verdict) {
+            return false;
+        }
+    }
+    true
+}
+
+fn use_grid(sh: &mut Shard) {
+    let full = sh.tier == crate::engine::Tier::Thorough;
+    let mut idx = 0u64;
+    'all: for vs in 0..(if full { GRID_VALUES.len() } else { 1 }) {
+        for scope in SCOPES {
+            for ti in 0..GRID_TYPES.len() {
+                idx += 1;
+                if !sh.mine(idx) {
+                    continue;
+                }
+                if !grid_unit(sh, vs, ti, scope, full) {
+                    break 'all;
+                }
+            }
+        }
+    }
+    sh.exhaustive(if full { "use-position x scope x name-spelling x type grid, two value sets" } else { "use-position x scope x name-spelling grid (each cell with the string type and one numeric type, rotating over % & ! #), one value set" });
+}
+
+/// Fixed witnesses (shard 0): pairs (program with c, program with (e)) that once differed.
+const WITNESSES: [(&str, &str, &str); 1] = [(
+    "c14-use:arg-user-sub:global-constant-in-sub:dotted",
+    "CONST MAX.ITEMS = 5\nDECLARE SUB Show\nDECLARE SUB Report (n)\n\nReport MAX.ITEMS\nShow\n\nSUB Show\n    Report MAX.ITEMS\n    Report (5)\nEND SUB\n\nSUB Report (n)\n    PRINT n\nEND SUB\n",
+    "DECLARE SUB Show\nDECLARE SUB Report (n)\n\nReport (5)\nShow\n\nSUB Show\n    Report (5)\n    Report (5)\nEND SUB\n\nSUB Report (n)\n    PRINT n\nEND SUB\n",
+)];
+
+fn check_pair(sig: &str, with_c: &str, with_e: &str, inputs: &Value) -> Result<(), Violation> {
+    let a = observe_all(with_c);
+    let b = observe_all(with_e);
+    if a != b {
+        return Err(Violation::new(sig, "replacing every use of the constant by its defining expression in parentheses changes the program's behaviour", inputs.clone()).exp_obs(json!({"with (e)": obs_json(&b)}), json!({"with c": obs_json(&a)})));
+    }
+    Ok(())
 }
